@@ -66,8 +66,9 @@ struct in_s {
 static ec_pt_fpx_mult_data_t fpx_md;
 #endif
 
+/* i_inf / j_inf are constants at every call site (see body) */
 static void
-run(unsigned i, unsigned j, uint32_t k, uint32_t l) {
+run(int i_inf, unsigned i, int j_inf, unsigned j, uint32_t k, uint32_t l) {
 	unsigned want;
 	int r;
 	bn_t bk, bl;
@@ -75,8 +76,8 @@ run(unsigned i, unsigned j, uint32_t k, uint32_t l) {
 
 	env_bn_set(&bk, K_BITS, k);
 	env_bn_set(&bl, K_BITS, l);
-	env_point(&pt, i, PT_BITS, IN.gx, IN.gy);
-	env_point(&pt2, j, PT_BITS, IN.gy, IN.gx);
+	env_point_c(&pt, i_inf, i, PT_BITS, IN.gx, IN.gy);
+	env_point_c(&pt2, j_inf, j, PT_BITS, IN.gy, IN.gx);
 	/* result object as a caller has it: initialised, possibly used before */
 	r = ec_point_init(&res, PT_BITS);
 	V_ASSUME(0 == r);
@@ -143,6 +144,28 @@ run(unsigned i, unsigned j, uint32_t k, uint32_t l) {
 	if (0 != want) V_WITNESS("finite result");
 }
 
+/* operand-at-infinity cases are separate call sites with constant flags */
+static void
+run_pts(unsigned i, unsigned j, uint32_t k, uint32_t l) {
+#if ENTRY == E_TWIN_ANY
+	if (0 == i && 0 == j)
+		run(1, 0, 1, 0, k, l);
+	else if (0 == i)
+		run(1, 0, 0, j, k, l);
+	else if (0 == j)
+		run(0, i, 1, 0, k, l);
+	else
+		run(0, i, 0, j, k, l);
+#elif ENTRY == E_BP
+	run(1, 0, 1, 0, k, l);
+#else
+	if (0 == i)
+		run(1, 0, 1, 0, k, l);
+	else
+		run(0, i, 1, 0, k, l);
+#endif
+}
+
 #ifdef K_ENUM
 /* only the two enumeration loops live here: enum_scalars.0 = inner (l), enum_scalars.1 = outer (k) */
 static void
@@ -151,11 +174,11 @@ enum_scalars(unsigned i, unsigned j) {
 #if TWO_SCALARS
 		for (uint32_t ll = L_MIN; ll <= L_MAX; ll ++) {
 			if (IN.k == kk && IN.l == ll)
-				run(i, j, kk, ll);
+				run_pts(i, j, kk, ll);
 		}
 #else
 		if (IN.k == kk)
-			run(i, j, kk, 0);
+			run_pts(i, j, kk, 0);
 #endif
 	}
 }
@@ -178,6 +201,9 @@ body(void) {
 #if ENTRY != E_TWIN_ANY
 	V_ASSUME(0 == j);
 #endif
+#if ENTRY == E_BP
+	V_ASSUME(0 == i);
+#endif
 	V_ASSUME(IN.gx < CV_P && IN.gy < CV_P && IN.rx < CV_P && IN.ry < CV_P);
 	r = env_curve_init();
 	V_ASSERT(0 == r, "curve constructor succeeds");
@@ -186,7 +212,7 @@ body(void) {
 #ifdef K_ENUM
 	enum_scalars(i, j);
 #else
-	run(i, j, IN.k, IN.l);
+	run_pts(i, j, IN.k, IN.l);
 #endif
 }
 
